@@ -38,7 +38,8 @@ for ci, (path, cmd) in enumerate(cmds):
             continue
         env = intern(env_names, o.env) if o.env else None
         key = intern(keys, o.key) if o.key else None
-        rows.append((ci, o.name, o.kind.label(), env, key, not o.required, bool(o.decl and o.decl["gallia_field"]), o.positional))
+        rows.append((ci, o.name, o.kind.label(), env, key, not o.required, bool(o.decl and o.decl["gallia_field"]), o.positional,
+                     o.kind.tag(), o.kind.arity))
 
 
 def opt(n):
@@ -49,7 +50,23 @@ def b(x):
     return "true" if x else "false"
 
 
-body = """
+def chars(s: str) -> str:
+    return "[" + ", ".join("'" + (c if c not in "'\\" else "\\" + c) + "'" for c in s) + "]"
+
+
+def path(key: str) -> str:
+    return "[" + ", ".join(chars(p) for p in key.split(".")) + "]"
+
+
+from pydantic_core import PydanticUndefined  # noqa: E402
+
+reg_rows = []
+for k in sorted(registry):
+    _, dv = registry[k]
+    reg_rows.append((k, dv is not None and dv is not PydanticUndefined))
+
+body = """import Gallia.Model.Config
+
 namespace Gallia.Gen.C18Options
 
 structure Row where
@@ -61,6 +78,8 @@ structure Row where
   hasDefault : Bool
   configurable : Bool    -- declared with gallia's Field()
   positional : Bool
+  tag : Gallia.Config.KindTag   -- the model's field kind (`unmodelled` when the model has none for the annotation)
+  arity : Nat            -- tuples: items per tuple
 
 def commands : List String := [
 """ + ",\n".join("  " + lean_str(" ".join(p)) for p, _ in cmds) + """]
@@ -76,7 +95,11 @@ def nTemplateKeys : Nat := {len(registry)}
 
 def rows : List Row := [
 """ + ",\n".join(
-    f"  ⟨{ci}, {lean_str(n)}, {lean_str(k)}, {opt(e)}, {opt(ky)}, {b(d)}, {b(c)}, {b(p)}⟩" for ci, n, k, e, ky, d, c, p in rows) + """]
+    f"  ⟨{ci}, {lean_str(n)}, {lean_str(k)}, {opt(e)}, {opt(ky)}, {b(d)}, {b(c)}, {b(p)}, .{t}, {a}⟩" for ci, n, k, e, ky, d, c, p, t, a in rows) + """]
+
+/-- `GalliaBaseModel.registry()`: dotted key split at the dots, and whether the template writes a value for it -/
+def registry : List (List (List Char) × Bool) := [
+""" + ",\n".join(f"  ({path(k)}, {b(h)})" for k, h in reg_rows) + """]
 
 end Gallia.Gen.C18Options
 """
